@@ -173,6 +173,14 @@ func init() {
 				if strings.Contains(out, ",") {
 					return "printing a level always gives the same answer"
 				}
+				// … and that answer is the name of the level it translates back to (the four supported
+				// levels, Default for everything else), whatever was printed before in this process
+				names := map[int]sql.IsolationLevel{
+					int(dblib.ASELevelReadUncommitted): sql.LevelReadUncommitted, int(dblib.ASELevelReadCommitted): sql.LevelReadCommitted,
+					int(dblib.ASELevelRepeatableRead): sql.LevelRepeatableRead, int(dblib.ASELevelSerializableRead): sql.LevelSerializable}
+				if out != strings.ReplaceAll(names[n].String(), " ", "_") { // missing key: sql.LevelDefault
+					return "printing a level agrees with translating it back"
+				}
 			}
 			return ""
 		},
